@@ -295,6 +295,13 @@ def run_impl(inp):
                     acc.append(repr(type(e)))
         res['changed'] = not deep_equal(outs_shared, outs_fresh) or not same_state(shared, make_model(inp['train']))
         res['hooks_left'] = hook_count(shared) > 0
+        if not res['changed']:
+            try:
+                b1 = behaviour(shared)
+                b0 = behaviour(make_model(inp['train']))
+                res['changed'] = not all(torch.equal(a, b) for a, b in zip(b0, b1))
+            except Exception as e:
+                res['changed'] = True
         return res
 
     model = make_model(inp.get('train', False))
@@ -358,8 +365,12 @@ def run_impl(inp):
     res['hooks_left'] = hook_count(model) > 0
     changed = not same_state(model, pristine)
     if not changed:
-        b1 = behaviour(model)
-        changed = not all(torch.equal(a, b) for a, b in zip(b0, b1))
+        try:
+            b1 = behaviour(model)
+            changed = not all(torch.equal(a, b) for a, b in zip(b0, b1))
+        except Exception as e:   # the model no longer even runs forward/backward as before
+            changed = True
+            res['behaviour_error'] = repr(e)[:200]
     res['changed'] = changed
     return res
 
